@@ -77,6 +77,15 @@ type Engine struct {
 	Lazy     bool
 	NoFeas   bool
 	harnessPkg *ssa.Package
+	funcInstrs map[string]int
+	Params     map[string]int
+	KnownMode  string
+	OpenKeys   map[string]bool
+	Verbose    bool
+	eager      map[string]bool // callees inside which branch feasibility is decided eagerly
+	eagerDepth int
+	MapOrderND bool
+	frozen     int // objects with Epoch < frozen are write-monitored (0 = off)
 }
 
 type unsupported struct{ msg string }
@@ -501,7 +510,7 @@ func (e *Engine) constVal(k *ssa.Const) Value {
 			return IntV{BV(w, v)}
 		}
 	}
-	unsup("const of type %v", t)
+	unsup("const of type %v in %v", t, k.Parent())
 	return nil
 }
 
@@ -816,6 +825,9 @@ func (e *Engine) call(caller *Frame, c *Ctx, fn *ssa.Function, args []Value, bin
 		}
 		unsup("call to function without body: %s%s", fn, chain)
 	}
+	if e.funcsHit[fn.String()] == 0 {
+		e.funcInstrs[fn.String()] = instrCount(fn)
+	}
 	e.funcsHit[fn.String()]++
 	depth := 0
 	if caller != nil {
@@ -888,7 +900,7 @@ func (e *Engine) execFrom(fr *Frame, c *Ctx, b *ssa.BasicBlock, stop *ssa.BasicB
 		}
 		for _, in := range b.Instrs[nphi:] {
 			e.Steps++
-			if e.Steps%2000 == 0 {
+			if e.Verbose && e.Steps%20000 == 0 {
 				fmt.Printf("    [exec] steps %d forks %d merges %d terms %d heap %d depth %d in %s\n", e.Steps, e.Forks, e.Merges, len(termList), len(c.S.Heap), fr.Depth, fr.Fn.Name())
 			}
 			switch x := in.(type) {
@@ -1374,6 +1386,49 @@ func (e *Engine) convert(c *Ctx, x *ssa.Convert) Value {
 			return v
 		}
 	}
+	// []byte -> string
+	if sv, ok := v.(SliceV); ok {
+		if b, ok := to.Underlying().(*types.Basic); ok && b.Info()&types.IsString != 0 {
+			var res Value
+			for _, a := range sv.Alts {
+				var s StrV
+				if a.Obj == -1 {
+					s = StrC("")
+				} else {
+					arr := c.S.Heap[a.Obj].Val.(ArrayV)
+					n := a.Cap
+					if a.Len.hasIv && int(a.Len.hi) < n {
+						n = int(a.Len.hi)
+					}
+					bs := make([]*Term, 0, n)
+					for i := 0; i < n && a.Off+i < len(arr.E); i++ {
+						bs = append(bs, arr.E[a.Off+i].(IntV).T)
+					}
+					s = StrV{Len: a.Len, B: bs}
+				}
+				if res == nil {
+					res = s
+				} else {
+					res = mergeV(a.G, s, res)
+				}
+			}
+			return res
+		}
+	}
+	// string -> []byte
+	if sv, ok := v.(StrV); ok {
+		if sl, ok := to.Underlying().(*types.Slice); ok {
+			if b, ok := sl.Elem().Underlying().(*types.Basic); ok && b.Kind() == types.Uint8 {
+				f := fl(sv)
+				el := make([]Value, len(f.B))
+				for i := range el {
+					el[i] = IntV{f.B[i]}
+				}
+				id := e.newObj(c, &Obj{Val: ArrayV{el}})
+				return SliceV{[]SliceAlt{{TTrue, id, 0, f.Len, len(el)}}}
+			}
+		}
+	}
 	unsup("convert %v -> %v", from, to)
 	return nil
 }
@@ -1470,6 +1525,9 @@ func (e *Engine) doCall(fr *Frame, c *Ctx, x *ssa.Call) (Value, *Ctx, bool) {
 		fn, bind = fv.Fn, fv.Bind
 	}
 	name := fn.String()
+	if fn.Synthetic == "package initializer" && fn.Pkg != nil && !strings.HasPrefix(fn.Pkg.Pkg.Path(), "github.com/go-openapi/analysis") {
+		return nil, c, true // dependency initialisers are not run (their globals are only reachable through intercepted calls)
+	}
 	if h, ok := e.intercept[name]; ok {
 		v, alive := h(e, fr, c, args, cc)
 		return v, c, alive
